@@ -803,3 +803,65 @@ func DagSize(roots ...*Term) int {
 	}
 	return len(seen)
 }
+
+// Replace substitutes every occurrence of from by to in t.
+func Replace(t, from, to *Term, memo map[int]*Term) *Term {
+	if t == from {
+		return to
+	}
+	if r, ok := memo[t.id]; ok {
+		return r
+	}
+	if len(t.args) == 0 {
+		memo[t.id] = t
+		return t
+	}
+	changed := false
+	args := make([]*Term, len(t.args))
+	for i, a := range t.args {
+		args[i] = Replace(a, from, to, memo)
+		if args[i] != a {
+			changed = true
+		}
+	}
+	r := t
+	if changed {
+		r = rebuildTerm(t, args)
+	}
+	memo[t.id] = r
+	return r
+}
+
+// rebuildTerm re-applies the smart constructors where folding matters.
+func rebuildTerm(t *Term, args []*Term) *Term {
+	switch t.op {
+	case "and":
+		return And(args...)
+	case "or":
+		return Or(args...)
+	case "not":
+		return Not(args[0])
+	case "ite":
+		return Ite(args[0], args[1], args[2])
+	case "=":
+		return Eq(args[0], args[1])
+	case "select":
+		return SelectA(args[0], args[1])
+	case "bvadd":
+		return BVAdd(args[0], args[1])
+	case "bvsub":
+		return BVSub(args[0], args[1])
+	case "bvsle":
+		return BVSle(args[0], args[1])
+	case "bvslt":
+		return BVSlt(args[0], args[1])
+	case "bvule":
+		return BVUle(args[0], args[1])
+	case "bvult":
+		return BVUlt(args[0], args[1])
+	}
+	return TB.mk(t.op, t.sort, false, false, nil, args...)
+}
+
+// instantiable quantifier nodes (asserted-positive occurrences)
+var instQuant = map[int]bool{}
